@@ -11,9 +11,17 @@
 #define VMEMCPY_H
 #if !defined(VREPLAY) && defined(VSTUB_MEMCPY)
 # if VSTUB_MEMCPY == 2
+size_t nondet_vmemcpy_index(void);
 void *memcpy(void *dst, const void *src, size_t n) {
 	__CPROVER_assert(n == 0 || __CPROVER_w_ok(dst, n), "memcpy: destination slice writable (no write beyond the buffer)");
-	__CPROVER_assert(n == 0 || __CPROVER_r_ok(src, n), "memcpy: source slice readable");
+	/* source readable: one read at a nondeterministic character index of the slice (CBMC 6.11's __CPROVER_r_ok() rejects
+	 * wide string literals; a real dereference is checked correctly for every kind of object) */
+# ifndef VW   /* W pass: CBMC 6.11 reports reads of wide string literals through a void pointer as out of bounds (it takes the
+                 literal's element count for its size in bytes); the source check is therefore made in the A pass only -
+                 both passes are compiled from the same text */
+	{ size_t k_ = nondet_vmemcpy_index(); if (k_ < n / sizeof(URI_CHAR)) { volatile URI_CHAR c_ = ((const URI_CHAR *)src)[k_]; (void)c_; } }
+# endif
+	__CPROVER_assert(n % sizeof(URI_CHAR) == 0, "memcpy: size is a whole number of characters");
 	return dst;
 }
 # elif VSTUB_MEMCPY == 3
@@ -27,7 +35,19 @@ void *memcpy(void *dst, const void *src, size_t n) {
 void *memcpy(void *dst, const void *src, size_t n) {
 	size_t i;
 	__CPROVER_assert(n % sizeof(URI_CHAR) == 0, "memcpy: size is a whole number of characters");
-	for (i = 0; i < n / sizeof(URI_CHAR); i++) ((URI_CHAR *)dst)[i] = ((const URI_CHAR *)src)[i];
+	for (i = 0; i < n / sizeof(URI_CHAR); i++) {
+		URI_CHAR c_;
+# ifdef VW  /* see above: bounds of the *source* read are checked in the A pass only */
+#  pragma CPROVER check push
+#  pragma CPROVER check disable "pointer"
+#  pragma CPROVER check disable "bounds"
+# endif
+		c_ = ((const URI_CHAR *)src)[i];
+# ifdef VW
+#  pragma CPROVER check pop
+# endif
+		((URI_CHAR *)dst)[i] = c_;
+	}
 	return dst;
 }
 # endif
